@@ -530,4 +530,43 @@ example : (forkSwitch 10 c3 0 [{ gOld with id := [0xd4], pre := [0x90, 0x01] }])
     ((getGroupByHeight (forkSwitch 10 c3 0 [{ gOld with id := [0xd4], pre := [0x90, 0x01] }]).1.disk 1).map (·.id)) = some [0xd4] ∧
     getGroupByHeight (forkSwitch 10 c3 0 [{ gOld with id := [0xd4], pre := [0x90, 0x01] }]).1.disk 2 = none := by decide
 
+/-! ## M. The hypotheses are needed (the code itself does not check them)
+
+`AddGroup` accepts any byte string as a group id (the consensus `CheckGroup` is what restricts ids to
+32-byte group ids) and `initGroupChain` saves whatever genesis list it is handed. Both hypotheses of
+part B are necessary; the witnesses are replayed against the real code in the malformed stream. -/
+
+def FullStatementAddAnyId : Prop :=
+  ∀ (l : List Group) (c : Chain) (g : Group), Rep l c → l.length + 1 < lenBound → addCheck c g = .ok →
+    Rep (l ++ [stamped l.length g]) (save c g)
+
+/-- A group whose id is the 8-byte key of the height slot it lands in. -/
+def gSlot : Group := { id := hkey 1, pre := [0x90, 0x01], parent := [0x90, 0x01], height := 7777, create := 1 }
+
+/-- Without `IdOK`: `save` writes the height slot over the group's own JSON (same key), so the
+    "listed group retrievable by id" clause fails at once (`[boot 9001; add 0000000000000001 9001 9001 1]`). -/
+theorem idok_needed_counterexample : ¬ FullStatementAddAnyId := by
+  intro h
+  have r := h [g0] c1 gSlot rep_c1 (by simp [lenBound]) (by decide)
+  have h1 := r.stored (stamped 1 gSlot) (by simp)
+  have e : sget (save c1 gSlot).disk (stamped 1 gSlot).id = some (.ref (hkey 1)) := by decide
+  rw [e] at h1
+  cases h1
+
+def FullStatementInitAnyGenesis : Prop :=
+  ∀ (gs : List Group) (c : Chain), gs ≠ [] → restart [] [] gs = some (.alive c) → ∃ l, Rep l c
+
+/-- A second genesis group that does not name the first as its predecessor. -/
+def g0b : Group := { id := [0x91, 0x01], pre := [], parent := [0x91, 0x01], height := 0, create := 1 }
+
+/-- Without the linking hypothesis of `GenesisOK`: two unlinked genesis groups give `Count()=2` over a
+    one-group list (`[boot 9001,-,9001,0 9101,-,9101,1]`). -/
+theorem genesis_linking_needed_counterexample : ¬ FullStatementInitAnyGenesis := by
+  intro h
+  obtain ⟨l, r⟩ := h [g0, g0b] ([g0, g0b].foldl save { disk := [], count := 0, last := g0, mirror := [] })
+    (by simp) (by decide)
+  have := rep_count_eq_iter r
+  revert this
+  decide
+
 end Rangers.Props.C19
